@@ -243,6 +243,15 @@ def polygon_stream(ctx, n):
         ctx.count("polygon3d:" + ("inside" if inside else "outside"))
         L3 = g.Line(g.Point(*map(float, A)), g.Point(*map(float, B)))
         compare_sets(ctx, "C18:polygon3d:line", desc3, [X + [Fr(1)]] if inside else [], call_impl(lambda: poly3.intersect(L3)))
+        # the same polygon obtained by moving another one (translation out of its plane, rotation): cached plane / edges follow
+        shift = [1.0, -2.0, 3.0]
+        poly_a = g.Polygon(*[g.Point(*[float(c) - s for c, s in zip(emb(Fr(x), Fr(y)), shift)]) for x, y in vs])
+        moved = call_impl(lambda: g.translation(*shift) * poly_a)
+        if moved[0] == "ok":
+            compare_sets(ctx, "C18:polygon3d:line:moved-polygon", desc3 + " (polygon obtained by translation)", [X + [Fr(1)]] if inside else [],
+                         call_impl(lambda: moved[1].intersect(L3)))
+        else:
+            ctx.disagree("C18:polygon3d:translation-error", desc3, "a polygon", moved[1:3], replay=[desc3])
         S3 = g.Segment(g.Point(*map(float, A)), g.Point(*map(float, B)))
         compare_sets(ctx, "C18:polygon3d:segment", desc3 + " (segment through)", [X + [Fr(1)]] if inside else [], call_impl(lambda: poly3.intersect(S3)))
         S4 = g.Segment(g.Point(*map(float, A)), g.Point(*[float(X[j] - w[j]) for j in range(3)]))
